@@ -185,7 +185,13 @@ func newInstDup(name string, o instOpts, dupUp, dupSet bool) (*inst, error) {
 	}
 	markers := []any{}
 	for _, l := range o.ipMarker {
-		p := strings.SplitN(l, ",", 3)
+		if i := strings.IndexByte(l, '#'); i >= 0 { // the file format: a '#' starts a comment, blanks around are dropped
+			l = l[:i]
+		}
+		p := strings.SplitN(strings.TrimSpace(l), ",", 3)
+		if len(p) < 3 {
+			continue
+		}
 		a, _ := netip.ParseAddr(p[0])
 		b, _ := netip.ParseAddr(p[1])
 		a16, b16 := a.As16(), b.As16()
@@ -360,6 +366,7 @@ type qspec struct {
 	optsize uint16
 	optopts bool // option-laden OPT (cookie, ECS, padding, DO)
 	optzero bool // advertise a UDP size of 0
+	optmid  bool // another record follows the OPT in the additional section
 	raw     []byte
 }
 
@@ -393,6 +400,9 @@ func (q qspec) wire() []byte {
 				&dns.EDNS0_PADDING{Padding: make([]byte, 9)})
 		}
 		m.Extra = append(m.Extra, o)
+		if q.optmid {
+			m.Extra = append(m.Extra, &dns.TXT{Hdr: dns.RR_Header{Name: "after-opt.test.", Rrtype: dns.TypeTXT, Class: dns.ClassINET, Ttl: 0}, Txt: []string{"x"}})
+		}
 	}
 	w, err := m.Pack()
 	if err != nil {
